@@ -32,6 +32,7 @@ type Prog struct {
 	enclosing map[*ast.FuncLit]*Func
 	flows     map[ast.Node]*Flow
 	cg        *CallGraph
+	ssa       *ssaView
 }
 
 // Func is one declared function of the repository.
